@@ -240,6 +240,61 @@ def spec_attrs(desc, ty):
 
 # ------------------------------------------------------------------ C18
 
+def _c18_real_world(vio, rng, tier):
+    """The helpers on a real World: every source ends up with exactly one data-flow per requested attribute pair, all to the one
+    destination the entity graph shows (attribute shapes incl. one source attribute feeding two destination attributes)."""
+    import asyncio
+    import warnings
+    import mosaik
+    import suites_world as sw
+    n = 0
+    shapes = [[("pe", "nt")], [("pe", "nt"), ("pe", "pe")], [("pe", "nt"), ("ev", "tr")], [("ev", "tr"), ("ev", "nt"), ("pe", "pe")]]
+    reps = 2 if tier == "quick" else 12
+    for shape, cache, helper in itertools.product(shapes, (True, False), ("randomly", "evenly", "many_to_one")):
+        for _ in range(reps):
+            n += 1
+            w = mosaik.World({"G": {"python": "verif_stubs:GStub"}}, asyncio_loop=asyncio.new_event_loop(), skip_greetings=True, cache=cache)
+            try:
+                with warnings.catch_warnings():
+                    warnings.simplefilter("ignore")
+                    n_src, n_dst = rng.randint(1, 5), rng.randint(1, 3)
+                    srcs = [e for i in range(2) for e in w.start("G", sim_id=f"S{i}").M.create((n_src + 1 - i) // 2)]
+                    dsts = [e for i in range(2) for e in w.start("G", sim_id=f"D{i}").M.create((n_dst + 1 - i) // 2)] or None
+                    if not srcs or not dsts:
+                        continue
+                    case = {"helper": helper, "attrs": shape, "cache": cache, "n_src": len(srcs), "n_dest": len(dsts)}
+                    saved = mutil.random
+                    mutil.random = random.Random(rng.randrange(10 ** 9))
+                    try:
+                        if helper == "many_to_one":
+                            mutil.connect_many_to_one(w, srcs, dsts[0], *shape)
+                        else:
+                            mutil.connect_randomly(w, srcs, dsts, *shape, evenly=(helper == "evenly"))
+                    finally:
+                        mutil.random = saved
+                flows = set()
+                for sim in w.sims.values():
+                    for (src_sim, _delay), pairs in sim.pulled_inputs.items():
+                        for (sp_, dp_) in pairs:
+                            flows.add((f"{src_sim.sid}.{sp_[0]}", sp_[1], f"{sim.sid}.{dp_[0]}", dp_[1]))
+                    for (seid, sattr), lst in sim.output_to_push.items():
+                        for (dsim, _delay, dp_) in lst:
+                            flows.add((f"{sim.sid}.{seid}", sattr, f"{dsim.sid}.{dp_[0]}", dp_[1]))
+                for e in srcs:
+                    nb = list(w.entity_graph[e.full_id])
+                    if len(nb) != 1:
+                        vio.append({"law": "every source is connected to exactly one destination (entity graph)", "source": e.full_id, "neighbours": nb, **case})
+                        continue
+                    for (sa, da) in shape:
+                        got = sorted(f[2] for f in flows if f[0] == e.full_id and f[1] == sa and f[3] == da)
+                        if got != nb:
+                            vio.append({"law": "every source has exactly one data-flow per requested attribute pair, to its destination",
+                                        "source": e.full_id, "pair": [sa, da], "flows_to": got, "destination": nb, **case})
+            finally:
+                sw.close_world(w)
+    return n
+
+
 def monitor_c18(rng: random.Random, tier: str):
     vio = []
     n = 0
@@ -285,6 +340,7 @@ def monitor_c18(rng: random.Random, tier: str):
                         vio.append({"law": "evenly: counts differ by at most one", **case, "counts": allc})
                     if not evenly and max_c is not None and max(allc) > max_c:
                         vio.append({"law": "max_connects exceeded", **case, "counts": allc})
+    n += _c18_real_world(vio, rng, tier)
     for k in range(0, 6):
         n += 1
         w = sp.FakeWorld()
